@@ -490,3 +490,30 @@ canary('c13-borrowed-drops-port', 'C13', DEC, "        NEW_PORT_EXT => parse_new
 canary('c13-to-owned-string-binary', 'C13', 'crates/erltf/src/borrowed.rs', "BorrowedTerm::String(s) => OwnedTerm::String(s.to_string()),", "BorrowedTerm::String(s) => OwnedTerm::Binary(s.as_bytes().to_vec()),", 'TABLE:to_owned')
 canary('c13-offset-shape', 'C13', DEC, "    ctx.byte_offset = original_len - input.len();\n    let (input, tag) = be_u8(input)?;", "    ctx.byte_offset = original_len + 1 - input.len();\n    let (input, tag) = be_u8(input)?;", 'byte_offset')
 canary('c13-borrowed-variant', 'C13', DEC, """    Ok((input, BorrowedTerm::Binary(Cow::Borrowed(data))))""", """    Ok((input, BorrowedTerm::BitBinary { bytes: Cow::Borrowed(data), bits: 8 }))""", 'TWIN:')
+
+# ---- C01 ----
+ENCF = 'crates/erltf/src/encoder.rs'
+canary('c01-binary-u16', 'C01', ENCF, """    buf.put_u8(BINARY_EXT);
+    buf.put_u32(len);
+    buf.put_slice(data);""", """    buf.put_u8(BINARY_EXT);
+    buf.put_u16(len as u16);
+    buf.put_slice(data);""", 'WIRE:')
+canary('c01-atom-guard-removed', 'C01', ENCF, """    if len > u16::MAX as usize {
+        return Err(EncodeError::AtomTooLarge { size: len });
+    }
+
+    if len > 255 {""", """    if len > 255 {""", 'no-truncation')
+canary('c01-tuple-threshold', 'C01', ENCF, "    if elements.len() <= 255 {\n        buf.put_u8(SMALL_TUPLE_EXT);", "    if elements.len() <= 256 {\n        buf.put_u8(SMALL_TUPLE_EXT);", 'no-truncation')
+canary('c01-string-as-list-tag', 'C01', ENCF, "    buf.put_u8(BINARY_EXT);\n    buf.put_u32(len);\n    buf.put_slice(data);", "    buf.put_u8(crate::tags::STRING_EXT);\n    buf.put_u32(len);\n    buf.put_slice(data);", 'WIRE:')
+canary('c01-pid-field-order', 'C01', ENCF, "        buf.put_u32(pid.id);\n        buf.put_u32(pid.serial);", "        buf.put_u32(pid.serial);\n        buf.put_u32(pid.id);", 'field-order')
+canary('c01-float-as-old', 'C01', ENCF, "    buf.put_u8(NEW_FLOAT_EXT);\n    buf.put_f64(value);", "    buf.put_u8(crate::tags::FLOAT_EXT);\n    buf.put_f64(value);", 'WIRE:')
+canary('c01-map-missing-value', 'C01', ENCF, """        encode_term_impl(buf, key, cache)?;
+        encode_term_impl(buf, value, cache)?;
+    }
+    Ok(())""", """        encode_term_impl(buf, key, cache)?;
+        let _ = value;
+    }
+    Ok(())""", 'WIRE:')
+canary('c01-numfree-field', 'C01', ENCF, "    temp_buf.put_u32(num_free);\n", "    let _ = num_free;\n    temp_buf.put_u32(fun.num_free);\n", 'WIRE:')
+canary('c01-ref-count-u8', 'C01', ENCF, "        buf.put_u8(NEWER_REFERENCE_EXT);\n        buf.put_u16(len);", "        buf.put_u8(NEWER_REFERENCE_EXT);\n        buf.put_u8(len as u8);", 'WIRE:')
+canary('c01-nil-as-string-variant', 'C01', ENCF, "        OwnedTerm::String(s) => encode_string(buf, s),", "        OwnedTerm::String(s) => encode_atom_impl(buf, &Atom::new(s), cache),", 'FLOW:')
